@@ -105,6 +105,13 @@ CHECKS = {
         note="PCG64's quality is trusted. Names bound at import time (from numpy.random import ...) escape the monitor and are covered by the run-twice comparison only.",
         technique="exhaustive enumeration of a finite configuration alphabet on the implementation, run-twice bitwise differential plus global-draw monitor",
     ),
+    "C18": dict(
+        category="exploration",
+        text="Grid enumeration through the real AdaptiveForceBias.update_delta(): 4 (min,max) ranges (incl. min == max and min == 0) x 3 reference variances x both update functions x 6 routes (committee forces / committee energies in calc.results, no committee data for both schemes, scalar and per-coordinate variances injected through the simulation's scheme table) x variances {0, 1e-300, ref/1e3, ref/2, ref, 2ref, 10ref, 1e3ref, 1e300}: delta finite and within [min,max] (4 ulp), == max at zero variance, == midpoint at the reference variance, -> min for variance >= 1000 ref, non-increasing along the grid, reference variance used without committee data.",
+        design_ref="4-C18",
+        note="Nothing is claimed between grid points. Committee arrays realise variances up to rounding; anchors are compared with the realised value.",
+        technique="exhaustive grid enumeration of the implementation's update path with range/anchor/monotonicity oracles",
+    ),
 }
 
 NA_REASON = "check not built yet in this session (design in DESIGN.md); no claim is made"
